@@ -93,6 +93,8 @@ class Step:
             return "pure"
         if self.ev.startswith("L "):
             return "locks"
+        if self.ev.startswith("S "):
+            return "stress"
         return self.toks[0] if self.toks else "?"
 
 
@@ -142,7 +144,7 @@ def load_cases(in_path, impl_path, model_path):
             cur.cfg_line = il
             cur.cfg = parse_cfg(il)
             cur.init_impl, cur.init_model = ml, dl
-        elif il.startswith("E ") or il.startswith("A ") or il.startswith("P ") or il.startswith("L "):
+        elif il.startswith("E ") or il.startswith("A ") or il.startswith("P ") or il.startswith("L ") or il.startswith("S "):
             cur.steps.append(Step(il, ml, dl, len(cur.steps)))
         elif il.startswith("#"):
             cur.notes.append(il)
